@@ -2260,4 +2260,825 @@ theorem funs_ok (p : Program) (hwf : wfProgram p = true) (hex : exitsProgram p =
   exact ⟨⟨hwf.2 d hd, hex.2 d hd⟩, h3⟩
 
 
+-- ==================================================================== (BI.lean)
+
+mutual
+/-- Every closure inside the value has a body inside the fragment (`bodyOK`), recursively
+through lists, tuples, payloads and captured scopes. -/
+def vok : Value → Bool
+  | .int _ | .str _ | .fn _ | .builtin _ | .enumC _ _ => true
+  | .list items => vokL items
+  | .tuple items => vokL items
+  | .enumV _ _ none => true
+  | .enumV _ _ (some v) => vok v
+  | .closure env _ body => bodyOK body && vokE env
+def vokL : List Value → Bool
+  | [] => true
+  | v :: vs => vok v && vokL vs
+def vokE : List (List (String × Value)) → Bool
+  | [] => true
+  | b :: bs => vokB b && vokE bs
+def vokB : List (String × Value) → Bool
+  | [] => true
+  | kv :: r => vok kv.2 && vokB r
+end
+
+-- ------------------------------------------------------------------ the invariant through the scope ADT
+
+theorem vokB_append (a b : Block) : vokB (a ++ b) = (vokB a && vokB b) := by
+  induction a with
+  | nil => simp [vokB]
+  | cons x xs ih => simp [vokB, ih, Bool.and_assoc]
+
+theorem vokB_find (b : Block) (f : String × Value → Bool) (kv : String × Value) (hb : vokB b = true)
+    (h : b.find? f = some kv) : vok kv.2 = true := by
+  induction b with
+  | nil => simp at h
+  | cons x xs ih =>
+    simp only [vokB, Bool.and_eq_true] at hb
+    simp only [List.find?] at h
+    split at h
+    · cases h; exact hb.1
+    · exact ih hb.2 h
+
+theorem lookup_ok : ∀ (σ : List Block) (n : String) (v : Value), vokE σ = true → lookupBlocks σ n = some v →
+    vok v = true
+  | [], n, v, _, h => by simp [lookupBlocks] at h
+  | b :: rest, n, v, hσ, h => by
+      simp only [vokE, Bool.and_eq_true] at hσ
+      unfold lookupBlocks at h
+      split at h
+      · rename_i kv hf; cases h; exact vokB_find b _ kv hσ.1 hf
+      · exact lookup_ok rest n v hσ.2 h
+
+theorem vokB_map_set (b : Block) (n : String) (v : Value) (hb : vokB b = true) (hv : vok v = true) :
+    vokB (b.map (fun kv => if kv.1 == n then (n, v) else kv)) = true := by
+  induction b with
+  | nil => rfl
+  | cons x xs ih =>
+    simp only [vokB, Bool.and_eq_true] at hb
+    simp only [List.map, vokB, Bool.and_eq_true]
+    refine ⟨?_, ih hb.2⟩
+    split
+    · exact hv
+    · exact hb.1
+
+theorem blockSet_ok (b : Block) (n : String) (v : Value) (hb : vokB b = true) (hv : vok v = true) :
+    vokB (blockSet b n v) = true := by
+  unfold blockSet
+  split
+  · exact vokB_map_set b n v hb hv
+  · rw [vokB_append]; simp [vokB, hb, hv]
+
+theorem addNew_ok (σ : List Block) (n : String) (v : Value) (hσ : vokE σ = true) (hv : vok v = true) :
+    vokE (addNew σ n v) = true := by
+  unfold addNew
+  split
+  · exact hσ
+  · cases σ with
+    | nil => rfl
+    | cons b rest =>
+      simp only [vokE, Bool.and_eq_true] at hσ ⊢
+      exact ⟨blockSet_ok b n v hσ.1 hv, hσ.2⟩
+
+theorem declareAll_ok : ∀ (binds : List (String × Value)) (σ : List Block), vokE σ = true → vokB binds = true →
+    vokE (declareAll σ binds) = true
+  | [], σ, hσ, _ => hσ
+  | kv :: rest, σ, hσ, hb => by
+      simp only [vokB, Bool.and_eq_true] at hb
+      simp only [declareAll, List.foldl]
+      exact declareAll_ok rest _ (addNew_ok σ kv.1 kv.2 hσ hb.1) hb.2
+
+theorem setExisting_ok : ∀ (σ σ' : List Block) (n : String) (v : Value), vokE σ = true → vok v = true →
+    setExisting σ n v = some σ' → vokE σ' = true
+  | [], σ', n, v, _, _, h => by simp [setExisting] at h
+  | b :: rest, σ', n, v, hσ, hv, h => by
+      simp only [vokE, Bool.and_eq_true] at hσ
+      unfold setExisting at h
+      split at h
+      · cases h; simp only [vokE, Bool.and_eq_true]; exact ⟨blockSet_ok b n v hσ.1 hv, hσ.2⟩
+      · simp at h
+        obtain ⟨r, hr, h2⟩ := h
+        subst h2
+        simp only [vokE, Bool.and_eq_true]
+        exact ⟨hσ.1, setExisting_ok rest r n v hσ.2 hv hr⟩
+
+theorem nsLookup_ok (p : Program) (n : String) (v : Value) (h : nsLookup p n = some v) : vok v = true := by
+  unfold nsLookup at h
+  split at h
+  · cases h; rfl
+  · split at h
+    · rename_i w hw
+      cases h
+      rcases findVariant_shape _ _ _ hw with ⟨t, i, rfl⟩ | ⟨t, i, rfl⟩ <;> rfl
+    · split at h
+      · cases h; rfl
+      · cases h
+
+theorem lookupVar_ok (p : Program) (σ : List Block) (n : String) (v : Value) (hσ : vokE σ = true)
+    (h : lookupVar p σ n = some v) : vok v = true := by
+  unfold lookupVar at h
+  cases hl : lookupBlocks σ n with
+  | some w => simp [hl] at h; subst h; exact lookup_ok σ n w hσ hl
+  | none => simp [hl] at h; exact nsLookup_ok p n v h
+
+theorem vokB_zip : ∀ (names : List String) (items : List Value), vokL items = true → vokB (names.zip items) = true
+  | [], _, _ => rfl
+  | _ :: _, [], _ => rfl
+  | n :: ns, v :: vs, h => by
+      simp only [vokL, Bool.and_eq_true] at h
+      simp only [List.zip_cons_cons, vokB, Bool.and_eq_true]
+      exact ⟨h.1, vokB_zip ns vs h.2⟩
+
+theorem destructure_ok (d : Dest) (v : Value) (er : Err) (binds : List (String × Value)) (hv : vok v = true)
+    (h : destructure d v er = .ok binds) : vokB binds = true := by
+  cases d with
+  | sym n => simp [destructure] at h; subst h; simp [vokB, hv]
+  | destr names =>
+    cases v
+    case tuple items =>
+      simp only [destructure] at h
+      split at h
+      · cases h
+      · cases h; exact vokB_zip names items (by simpa [vok] using hv)
+    all_goals simp [destructure] at h
+
+theorem paramScope_ok (ps : List String) (vs : List Value) (hv : vokL vs = true) :
+    vokB (paramScope ps vs) = true := by
+  unfold paramScope
+  have : ∀ (kvs : List (String × Value)) (acc : Block), vokB kvs = true → vokB acc = true →
+      vokB (kvs.foldl (fun b kv => if kv.1 == "_" then b else blockSet b kv.1 kv.2) acc) = true := by
+    intro kvs
+    induction kvs with
+    | nil => intro acc _ ha; exact ha
+    | cons kv rest ih =>
+      intro acc hk ha
+      simp only [vokB, Bool.and_eq_true] at hk
+      simp only [List.foldl]
+      apply ih _ hk.2
+      split
+      · exact ha
+      · exact blockSet_ok acc kv.1 kv.2 ha hk.1
+  exact this _ [] (vokB_zip ps vs hv) rfl
+
+theorem drop1_ok (σ : List Block) (h : vokE σ = true) : vokE (σ.drop 1) = true := by
+  cases σ with
+  | nil => rfl
+  | cons b rest => simp only [vokE, Bool.and_eq_true] at h; simpa using h.2
+
+theorem vBool_ok (b : Bool) : vok (vBool b) = true := by cases b <;> rfl
+
+theorem intBinop_ok (op : BinOp) (a b : Int64) (v : Value) (h : intBinop op a b = .ok v) : vok v = true := by
+  cases op <;> simp only [intBinop] at h
+  all_goals (
+    try (repeat' split at h)
+    all_goals (
+      try simp at h
+      try (subst h)
+      try (first | exact vBool_ok _ | rfl)))
+
+theorem binop_ok (op : BinOp) (a b v : Value) (h : BigStep.binop op a b = .val v) : vok v = true := by
+  cases op <;> simp only [BigStep.binop] at h
+  all_goals (
+    try (repeat' split at h)
+    all_goals (
+      try simp at h
+      try (subst h)
+      try (first | exact vBool_ok _ | rfl)))
+  all_goals (rename_i hq; exact intBinop_ok _ _ _ _ hq)
+
+-- ------------------------------------------------------------------ the checked interpreter agrees with `eval`
+
+/-- Scopes and result values carry only closures with bodies inside the fragment. -/
+def ROK (r : Res) : Prop :=
+  vokE r.scopes = true ∧ (∀ v, r.outcome = .val v → vok v = true) ∧ (∀ v, r.outcome = .ret v → vok v = true)
+
+/-- Two evaluators agree on fragment expressions in scopes satisfying the invariant, and keep it. -/
+def Agree (ev1 ev2 : Ev) : Prop :=
+  ∀ (bk ck : Bool) (e : Expr) (σ : List Block) (out : String), vokE σ = true → lvE e ≤ 2 → wfE e = true →
+    exE bk ck e = true → ev1 σ out e = ev2 σ out e ∧ ROK (ev2 σ out e)
+
+def GoodL (bk ck : Bool) (es : List Expr) : Prop :=
+  ∀ e ∈ es, lvE e ≤ 2 ∧ wfE e = true ∧ exE bk ck e = true
+
+theorem lvB_mem : ∀ (es : List Expr) (L : Nat), lvB es ≤ L → ∀ e ∈ es, lvE e ≤ L
+  | [], _, _, _, h => by simp at h
+  | x :: xs, L, hl, e, h => by
+      have := lvB_cons x xs L hl
+      rcases List.mem_cons.mp h with h1 | h1
+      · subst h1; exact this.1
+      · exact lvB_mem xs L this.2 e h1
+
+theorem wfB_mem (u : Bool) : ∀ (es : List Expr), wfB u es = true → ∀ e ∈ es, wfE e = true
+  | [], _, _, h => by simp at h
+  | x :: xs, hw, e, h => by
+      simp only [wfB, Bool.and_eq_true] at hw
+      rcases List.mem_cons.mp h with h1 | h1
+      · subst h1; exact hw.1.2
+      · exact wfB_mem u xs hw.2 e h1
+
+theorem wfAll_mem : ∀ (es : List Expr), wfAll es = true → ∀ e ∈ es, wfE e = true
+  | [], _, _, h => by simp at h
+  | x :: xs, hw, e, h => by
+      simp only [wfAll, Bool.and_eq_true] at hw
+      rcases List.mem_cons.mp h with h1 | h1
+      · subst h1; exact hw.1.2
+      · exact wfAll_mem xs hw.2 e h1
+
+theorem exB_mem (bk ck : Bool) : ∀ (es : List Expr), exB bk ck es = true → ∀ e ∈ es, exE bk ck e = true
+  | [], _, _, h => by simp at h
+  | x :: xs, hw, e, h => by
+      simp only [exB, Bool.and_eq_true] at hw
+      rcases List.mem_cons.mp h with h1 | h1
+      · subst h1; exact hw.1
+      · exact exB_mem bk ck xs hw.2 e h1
+
+theorem exAll_mem : ∀ (es : List Expr), exAll es = true → ∀ e ∈ es, exE false false e = true
+  | [], _, _, h => by simp at h
+  | x :: xs, hw, e, h => by
+      simp only [exAll, Bool.and_eq_true] at hw
+      rcases List.mem_cons.mp h with h1 | h1
+      · subst h1; exact hw.1
+      · exact exAll_mem xs hw.2 e h1
+
+theorem goodL_block {u bk ck : Bool} {es : List Expr} (hl : lvB es ≤ 2) (hw : wfB u es = true)
+    (hx : exB bk ck es = true) : GoodL bk ck es :=
+  fun e he => ⟨lvB_mem es 2 hl e he, wfB_mem u es hw e he, exB_mem bk ck es hx e he⟩
+
+theorem goodL_all {es : List Expr} (hl : lvB es ≤ 2) (hw : wfAll es = true) (hx : exAll es = true) :
+    GoodL false false es :=
+  fun e he => ⟨lvB_mem es 2 hl e he, wfAll_mem es hw e he, exAll_mem es hx e he⟩
+
+theorem goodL_body {body : List Expr} (h : bodyOK body = true) : GoodL false false body := by
+  simp only [bodyOK, Bool.and_eq_true, decide_eq_true_eq] at h
+  exact goodL_block h.2 h.1.1 h.1.2
+
+theorem GoodL.tail {bk ck : Bool} {e : Expr} {es : List Expr} (h : GoodL bk ck (e :: es)) : GoodL bk ck es :=
+  fun x hx => h x (List.mem_cons_of_mem _ hx)
+
+theorem evalSeq_agree {ev1 ev2 : Ev} (h : Agree ev1 ev2) (bk ck : Bool) :
+    ∀ (es : List Expr) (last : Value) (σ : List Block) (out : String), vokE σ = true → vok last = true →
+      GoodL bk ck es →
+      evalSeq ev1 last es σ out = evalSeq ev2 last es σ out ∧ ROK (evalSeq ev2 last es σ out)
+  | [], last, σ, out, hσ, hlast, _ => by
+      simp only [evalSeq]
+      exact ⟨by trivial, hσ, by intro v hv; cases hv; exact hlast, by intro v hv; cases hv⟩
+  | e :: rest, last, σ, out, hσ, hlast, hg => by
+      obtain ⟨hl, hw, hx⟩ := hg e (by simp)
+      obtain ⟨heq, hrok⟩ := h bk ck e σ out hσ hl hw hx
+      simp only [evalSeq]
+      rw [heq]
+      generalize ev2 σ out e = r at hrok ⊢
+      obtain ⟨s1, o1, oc⟩ := r
+      cases oc
+      case val v => exact evalSeq_agree h bk ck rest v s1 o1 hrok.1 (hrok.2.1 v rfl) hg.tail
+      all_goals exact ⟨rfl, hrok⟩
+
+/-- Invariant of a right-to-left operand evaluation. -/
+def ROKL (r : ResL) : Prop :=
+  vokE r.scopes = true ∧ (∀ vs, r.result = .ok vs → vokL vs = true) ∧
+    (∀ v, r.result = .error (.ret v) → vok v = true) ∧ (∀ v, r.result ≠ .error (.val v))
+
+theorem evalRtl_agree {ev1 ev2 : Ev} (h : Agree ev1 ev2) :
+    ∀ (es : List Expr) (σ : List Block) (out : String), vokE σ = true → GoodL false false es →
+      evalRtl ev1 es σ out = evalRtl ev2 es σ out ∧ ROKL (evalRtl ev2 es σ out)
+  | [], σ, out, hσ, _ => by
+      simp only [evalRtl]
+      exact ⟨by trivial, hσ, (fun vs hv => by cases hv; rfl), (fun v hv => by cases hv), (fun v hv => by cases hv)⟩
+  | e :: rest, σ, out, hσ, hg => by
+      obtain ⟨heq, hrok⟩ := evalRtl_agree h rest σ out hσ hg.tail
+      simp only [evalRtl]
+      rw [heq]
+      generalize evalRtl ev2 rest σ out = r at hrok ⊢
+      obtain ⟨s1, o1, res⟩ := r
+      cases res with
+      | error o => exact ⟨rfl, hrok⟩
+      | ok vs =>
+        obtain ⟨hl, hw, hx⟩ := hg e (by simp)
+        obtain ⟨heq2, hrok2⟩ := h false false e s1 o1 hrok.1 hl hw hx
+        simp only []
+        rw [heq2]
+        generalize ev2 s1 o1 e = r2 at hrok2 ⊢
+        obtain ⟨s2, o2, oc⟩ := r2
+        refine ⟨rfl, ?_⟩
+        cases oc <;> simp only [ROKL]
+        case val v =>
+          refine And.intro hrok2.1 (And.intro ?_ (And.intro (fun w hw => by cases hw) (fun w hw => by cases hw)))
+          intro ws hws; cases hws
+          simp only [vokL, Bool.and_eq_true]
+          exact ⟨hrok2.2.1 v rfl, hrok.2.1 vs rfl⟩
+        case ret v =>
+          exact And.intro hrok2.1 (And.intro (fun ws hws => by cases hws)
+            (And.intro (fun w hw => by cases hw; exact hrok2.2.2 v rfl) (fun w hw => by cases hw)))
+        all_goals
+          exact And.intro hrok2.1 (And.intro (fun ws hws => by cases hws)
+            (And.intro (fun w hw => by cases hw) (fun w hw => by cases hw)))
+
+theorem runBlock_agree {ev1 ev2 : Ev} (h : Agree ev1 ev2) (bk ck : Bool) (binds : List (String × Value))
+    (body : List Expr) (σ : List Block) (out : String) (hσ : vokE σ = true) (hb : vokB binds = true)
+    (hg : GoodL bk ck body) :
+    runBlock ev1 binds body σ out = runBlock ev2 binds body σ out ∧ ROK (runBlock ev2 binds body σ out) := by
+  have hσ' : vokE (declareAll ([] :: σ) binds) = true :=
+    declareAll_ok binds _ (by simp [vokE, vokB, hσ]) hb
+  obtain ⟨heq, hrok⟩ := evalSeq_agree h bk ck body vUnit _ out hσ' rfl hg
+  simp only [runBlock]
+  rw [heq]
+  exact ⟨rfl, drop1_ok _ hrok.1, hrok.2.1, hrok.2.2⟩
+
+theorem vokL_mem : ∀ (l : List Value) (x : Value), vokL l = true → x ∈ l → vok x = true
+  | [], _, _, h => by simp at h
+  | y :: ys, x, hl, h => by
+      simp only [vokL, Bool.and_eq_true] at hl
+      rcases List.mem_cons.mp h with h1 | h1
+      · subst h1; exact hl.1
+      · exact vokL_mem ys x hl.2 h1
+
+theorem ROK_of (σ : List Block) (out : String) (o : Outcome) (hσ : vokE σ = true)
+    (h1 : ∀ v, o = .val v → vok v = true) (h2 : ∀ v, o = .ret v → vok v = true) : ROK ⟨σ, out, o⟩ :=
+  And.intro hσ (And.intro h1 h2)
+
+theorem ROK_err (σ : List Block) (out : String) (er : Err) (hσ : vokE σ = true) : ROK ⟨σ, out, .err er⟩ :=
+  ROK_of σ out _ hσ (fun v hv => by cases hv) (fun v hv => by cases hv)
+
+theorem ROK_unsup (σ : List Block) (out : String) (w : String) (hσ : vokE σ = true) : ROK ⟨σ, out, .unsupported w⟩ :=
+  ROK_of σ out _ hσ (fun v hv => by cases hv) (fun v hv => by cases hv)
+
+theorem ROK_val (σ : List Block) (out : String) (v : Value) (hσ : vokE σ = true) (hv : vok v = true) :
+    ROK ⟨σ, out, .val v⟩ :=
+  ROK_of σ out _ hσ (fun w hw => by cases hw; exact hv) (fun w hw => by cases hw)
+
+theorem forLoop_agree {ev1 ev2 : Ev} (h : Agree ev1 ev2) (dest : Dest) (body : List Expr)
+    (hg : GoodL true true body) :
+    ∀ (xs : List Value) (σ : List Block) (out : String), vokE σ = true → vokL xs = true →
+      forLoop ev1 dest body xs σ out = forLoop ev2 dest body xs σ out ∧ ROK (forLoop ev2 dest body xs σ out)
+  | [], σ, out, hσ, _ => by
+      exact ⟨rfl, ROK_val σ out vUnit hσ rfl⟩
+  | x :: xs, σ, out, hσ, hxs => by
+      simp only [vokL, Bool.and_eq_true] at hxs
+      simp only [forLoop]
+      cases hd : destructure dest x (.typeError "Tuple") with
+      | error er => exact ⟨rfl, ROK_err σ out er hσ⟩
+      | ok binds =>
+        simp only []
+        obtain ⟨heq, hrok⟩ := runBlock_agree h true true binds body σ out hσ
+          (destructure_ok dest x _ binds hxs.1 hd) hg
+        rw [heq]
+        generalize runBlock ev2 binds body σ out = r at hrok ⊢
+        obtain ⟨s1, o1, oc⟩ := r
+        cases oc
+        case val v => exact forLoop_agree h dest body hg xs s1 o1 hrok.1 hxs.2
+        case cont => exact forLoop_agree h dest body hg xs s1 o1 hrok.1 hxs.2
+        case brk => exact ⟨rfl, ROK_val s1 o1 vUnit hrok.1 rfl⟩
+        all_goals exact ⟨rfl, hrok⟩
+
+theorem runBody_agree {ev1 ev2 : Ev} (h : Agree ev1 ev2) (scopes : List Block) (body : List Expr)
+    (σ : List Block) (out : String) (hs : vokE scopes = true) (hσ : vokE σ = true) (hg : GoodL false false body) :
+    runBody ev1 scopes body σ out = runBody ev2 scopes body σ out ∧ ROK (runBody ev2 scopes body σ out) := by
+  obtain ⟨heq, hrok⟩ := evalSeq_agree h false false body vUnit scopes out hs rfl hg
+  simp only [runBody]
+  rw [heq]
+  generalize evalSeq ev2 vUnit body scopes out = r at hrok ⊢
+  obtain ⟨s1, o1, oc⟩ := r
+  cases oc
+  case val v => exact ⟨rfl, ROK_val σ o1 v hσ (hrok.2.1 v rfl)⟩
+  case ret v => exact ⟨rfl, ROK_val σ o1 v hσ (hrok.2.2 v rfl)⟩
+  case err er => exact ⟨rfl, ROK_err σ o1 er hσ⟩
+  all_goals exact ⟨rfl, ROK_of σ o1 _ hσ (fun v hv => by cases hv) (fun v hv => by cases hv)⟩
+
+
+-- ==================================================================== (BI2.lean)
+
+theorem apply_builtin_ROK (ev : Ev) (p : Program) (σ : List Block) (out : String) (name : String) (vs : List Value)
+    (hσ : vokE σ = true) : ROK (BigStep.apply ev p σ out (.builtin name) vs) := by
+  simp only [BigStep.apply]
+  split
+  · exact ROK_err σ out _ hσ
+  · split
+    · exact ROK_val σ _ vUnit hσ rfl
+    · exact ROK_val σ _ vUnit hσ rfl
+    · exact ROK_err σ out _ hσ
+    · exact ROK_err σ out _ hσ
+    · exact ROK_val σ out _ hσ rfl
+    · exact ROK_unsup σ out _ hσ
+
+theorem apply_agree {ev1 ev2 : Ev} (h : Agree ev1 ev2) (p : Program)
+    (hfuns : ∀ d ∈ p.funs, bodyOK d.body = true) (σ : List Block) (out : String) (fv : Value) (vs : List Value)
+    (hσ : vokE σ = true) (hf : vok fv = true) (hvs : vokL vs = true) :
+    applyChecked p ev1 σ out fv vs = BigStep.apply ev2 p σ out fv vs ∧ ROK (BigStep.apply ev2 p σ out fv vs) := by
+  cases fv
+  case closure env ps body =>
+    simp only [vok, Bool.and_eq_true] at hf
+    simp only [applyChecked, hf.1, if_true, BigStep.apply]
+    by_cases hc : (ps.length != vs.length) = true
+    · simp only [hc, if_true]; exact ⟨by first | rfl | trivial, ROK_err σ out _ hσ⟩
+    · simp only [hc, if_false, Bool.false_eq_true]
+      exact runBody_agree h _ body σ out
+        (by simp only [vokE, Bool.and_eq_true]; exact ⟨paramScope_ok ps vs hvs, hf.2⟩) hσ (goodL_body hf.1)
+  case fn name =>
+    simp only [applyChecked, BigStep.apply]
+    cases hfd : p.funs.find? (fun d => d.name == name) with
+    | none => exact ⟨by first | rfl | trivial, ROK_unsup σ out _ hσ⟩
+    | some d =>
+      simp only []
+      by_cases hc : (d.params.length != vs.length) = true
+      · simp only [hc, if_true]; exact ⟨by first | rfl | trivial, ROK_err σ out _ hσ⟩
+      · simp only [hc, if_false, Bool.false_eq_true]
+        exact runBody_agree h _ d.body σ out
+          (by simp [vokE, paramScope_ok d.params vs hvs]) hσ
+          (goodL_body (hfuns d (mem_of_find _ _ _ hfd)))
+  case builtin name =>
+    refine ⟨?_, apply_builtin_ROK ev2 p σ out name vs hσ⟩
+    simp only [applyChecked, BigStep.apply]
+  case enumC ty idx =>
+    refine ⟨by simp only [applyChecked, BigStep.apply], ?_⟩
+    simp only [BigStep.apply]
+    split
+    · rename_i a
+      simp only [vokL, Bool.and_eq_true] at hvs
+      exact ROK_val σ out _ hσ (by simp only [vok]; exact hvs.1)
+    · exact ROK_err σ out _ hσ
+  all_goals exact ⟨by simp only [applyChecked, BigStep.apply], by simp only [BigStep.apply]; exact ROK_err σ out _ hσ⟩
+
+theorem selectCase_ok (p : Program) (σ : List Block) (ty : String) (idx : Nat) (payload : Option Value)
+    (hp : ∀ pl, payload = some pl → vok pl = true) :
+    ∀ (cases : List Case) (binds : List (String × Value)) (body : List Expr),
+      selectCase p σ ty idx payload cases = .take binds body →
+      vokB binds = true ∧ ∃ vn d, Case.mk vn d body ∈ cases
+  | [], binds, body, h => by simp [selectCase] at h
+  | .mk variant dest cbody :: rest, binds, body, h => by
+      have ihr := selectCase_ok p σ ty idx payload hp rest binds body
+      have lift : (vokB binds = true ∧ ∃ vn d, Case.mk vn d body ∈ rest) →
+          (vokB binds = true ∧ ∃ vn d, Case.mk vn d body ∈ Case.mk variant dest cbody :: rest) := by
+        rintro ⟨h1, vn, d, hm⟩; exact ⟨h1, vn, d, List.mem_cons_of_mem _ hm⟩
+      have inner : ∀ (binds' : List (String × Value)),
+          (match payload, dest with
+            | some pl, some d =>
+              match destructure d pl (.typeError "tuple-payload") with
+              | .ok bs => CaseSel.take bs cbody
+              | .error e => CaseSel.fail e
+            | none, none => CaseSel.take [] cbody
+            | _, _ => selectCase p σ ty idx payload rest) = .take binds body →
+          vokB binds = true ∧ ∃ vn d, Case.mk vn d body ∈ Case.mk variant dest cbody :: rest := by
+        intro _ h
+        cases payload with
+        | none =>
+          cases dest with
+          | none => simp only [] at h; cases h; exact ⟨rfl, variant, none, List.mem_cons_self⟩
+          | some d => simp only [] at h; exact lift (ihr h)
+        | some pl =>
+          cases dest with
+          | none => simp only [] at h; exact lift (ihr h)
+          | some d =>
+            simp only [] at h
+            cases hd : destructure d pl (.typeError "tuple-payload") with
+            | ok bs =>
+              simp only [hd] at h; cases h
+              exact ⟨destructure_ok d pl _ _ (hp pl rfl) hd, variant, some d, List.mem_cons_self⟩
+            | error e => simp only [hd] at h; cases h
+      unfold selectCase at h
+      by_cases hv : (variant == "_") = true
+      · simp only [hv, if_true] at h; cases h; exact ⟨rfl, variant, dest, List.mem_cons_self⟩
+      · simp only [hv, if_false, Bool.false_eq_true] at h
+        cases hl : lookupVar p σ variant with
+        | none => simp only [hl] at h; cases h
+        | some pv =>
+          cases pv <;> simp only [hl] at h <;> (try (cases h; done))
+          case enumV pty pidx ppl =>
+            by_cases hm : (ty == pty && idx == pidx) = true
+            · simp only [hm, if_true] at h; exact inner binds h
+            · simp only [hm, if_false, Bool.false_eq_true] at h; exact lift (ihr h)
+          case enumC pty pidx =>
+            by_cases hm : (ty == pty && idx == pidx) = true
+            · simp only [hm, if_true] at h; exact inner binds h
+            · simp only [hm, if_false, Bool.false_eq_true] at h; exact lift (ihr h)
+
+
+-- ==================================================================== (BI3.lean)
+
+/-- `BigStep.apply` as an `Ap` (so that `eval p = evalWith (apFull p) p` by definition). -/
+abbrev apFull (p : Program) : Ap := fun ev σ out fv vs => BigStep.apply ev p σ out fv vs
+
+theorem eval_eq (p : Program) (n : Nat) : eval p n = evalWith (apFull p) p n := rfl
+
+theorem binop_not_ret (op : BinOp) (a b v : Value) : BigStep.binop op a b ≠ .ret v := by
+  rcases binop_shape op a b with ⟨w, h⟩ | ⟨e, h⟩ | ⟨w, h⟩ <;> rw [h] <;> simp
+
+theorem agree_succ (p : Program) (hfuns : ∀ d ∈ p.funs, bodyOK d.body = true) (n : Nat)
+    (h : Agree (evalWith (applyChecked p) p n) (evalWith (apFull p) p n)) :
+    Agree (evalWith (applyChecked p) p (n + 1)) (evalWith (apFull p) p (n + 1)) := by
+  intro bk ck e σ out hσ hl hw hx
+  cases e
+  case int id u v => simp only [evalWith]; exact ⟨trivial, ROK_val σ out _ hσ rfl⟩
+  case str id u t => simp only [evalWith]; exact ⟨trivial, ROK_val σ out _ hσ rfl⟩
+  case invalid id u => simp only [evalWith]; exact ⟨trivial, ROK_err σ out _ hσ⟩
+  case unsup id u w => simp only [evalWith]; exact ⟨trivial, ROK_unsup σ out _ hσ⟩
+  case brk id u => simp only [evalWith]; exact ⟨trivial, ROK_of σ out _ hσ (fun v hv => by cases hv) (fun v hv => by cases hv)⟩
+  case cont id u => simp only [evalWith]; exact ⟨trivial, ROK_of σ out _ hσ (fun v hv => by cases hv) (fun v hv => by cases hv)⟩
+  case var id u name =>
+    simp only [evalWith]
+    cases hlk : lookupVar p σ name with
+    | none => exact ⟨trivial, ROK_err σ out _ hσ⟩
+    | some v => exact ⟨trivial, ROK_val σ out v hσ (lookupVar_ok p σ name v hσ hlk)⟩
+  case lambda id u ps body =>
+    simp only [evalWith]
+    simp only [wfE] at hw
+    simp only [exE] at hx
+    simp only [lvE] at hl
+    refine ⟨trivial, ROK_val σ out _ hσ ?_⟩
+    simp only [vok, bodyOK, Bool.and_eq_true, decide_eq_true_eq]
+    exact ⟨⟨⟨hw, hx⟩, by omega⟩, hσ⟩
+  case paren id u inner =>
+    simp only [wfE, Bool.and_eq_true, beq_iff_eq] at hw
+    simp only [exE] at hx
+    simp only [lvE] at hl
+    simp only [evalWith]
+    exact h false false inner σ out hσ hl hw.2 hx
+  case binop id u op l r =>
+    simp only [wfE, Bool.and_eq_true] at hw
+    simp only [exE, Bool.and_eq_true] at hx
+    simp only [lvE] at hl
+    have hl3 := max_le3 hl
+    obtain ⟨q1, r1⟩ := h false false l σ out hσ hl3.2.1 hw.1.2 hx.1
+    simp only [evalWith]
+    rw [q1]
+    generalize evalWith (apFull p) p n σ out l = rl at r1 ⊢
+    obtain ⟨s1, o1, oc1⟩ := rl
+    cases oc1
+    case val lv =>
+      simp only []
+      obtain ⟨q2, r2⟩ := h false false r s1 o1 r1.1 hl3.2.2 hw.2 hx.2
+      rw [q2]
+      generalize evalWith (apFull p) p n s1 o1 r = rr at r2 ⊢
+      obtain ⟨s2, o2, oc2⟩ := rr
+      cases oc2
+      case val rv =>
+        exact ⟨(by first | rfl | trivial), ROK_of s2 o2 _ r2.1 (fun v hv => binop_ok op lv rv v hv)
+          (fun v hv => absurd hv (binop_not_ret op lv rv v))⟩
+      all_goals exact ⟨(by first | rfl | trivial), r2⟩
+    all_goals exact ⟨(by first | rfl | trivial), r1⟩
+  case letE id u dest inner =>
+    simp only [wfE, Bool.and_eq_true] at hw
+    simp only [exE] at hx
+    simp only [lvE] at hl
+    obtain ⟨q1, r1⟩ := h false false inner σ out hσ hl hw.2 hx
+    simp only [evalWith]
+    rw [q1]
+    generalize evalWith (apFull p) p n σ out inner = r0 at r1 ⊢
+    obtain ⟨s1, o1, oc1⟩ := r0
+    cases oc1
+    case val v =>
+      simp only []
+      cases hd : destructure dest v (.typeError "Tuple") with
+      | error er => exact ⟨(by first | rfl | trivial), ROK_err s1 o1 _ r1.1⟩
+      | ok binds =>
+        exact ⟨(by first | rfl | trivial), ROK_val _ o1 _ (declareAll_ok binds s1 r1.1 (destructure_ok dest v _ binds (r1.2.1 v rfl) hd)) rfl⟩
+    all_goals exact ⟨(by first | rfl | trivial), r1⟩
+  case assign id u name inner =>
+    simp only [wfE, Bool.and_eq_true] at hw
+    simp only [exE] at hx
+    simp only [lvE] at hl
+    obtain ⟨q1, r1⟩ := h false false inner σ out hσ hl hw.2 hx
+    simp only [evalWith]
+    rw [q1]
+    generalize evalWith (apFull p) p n σ out inner = r0 at r1 ⊢
+    obtain ⟨s1, o1, oc1⟩ := r0
+    cases oc1
+    case val v =>
+      simp only []
+      cases hd : setExisting s1 name v with
+      | none => exact ⟨(by first | rfl | trivial), ROK_err s1 o1 _ r1.1⟩
+      | some σ' => exact ⟨(by first | rfl | trivial), ROK_val σ' o1 _ (setExisting_ok s1 σ' name v r1.1 (r1.2.1 v rfl) hd) rfl⟩
+    all_goals exact ⟨(by first | rfl | trivial), r1⟩
+  case update id u isAdd name inner =>
+    simp only [wfE, Bool.and_eq_true] at hw
+    simp only [exE] at hx
+    simp only [lvE] at hl
+    obtain ⟨q1, r1⟩ := h false false inner σ out hσ hl hw.2 hx
+    simp only [evalWith]
+    rw [q1]
+    generalize evalWith (apFull p) p n σ out inner = r0 at r1 ⊢
+    obtain ⟨s1, o1, oc1⟩ := r0
+    cases oc1
+    case val dv =>
+      simp only []
+      refine ⟨(by first | rfl | trivial), ?_⟩
+      cases lookupVar p s1 name with
+      | none => exact ROK_err s1 o1 _ r1.1
+      | some cv =>
+        cases cv <;> simp only [] <;> (try exact ROK_err s1 o1 _ r1.1)
+        case int cur =>
+          cases dv <;> simp only [] <;> (try exact ROK_err s1 o1 _ r1.1)
+          case int d =>
+            cases hd : setExisting s1 name (.int (if isAdd then cur + d else cur - d)) with
+            | none => exact ROK_err s1 o1 _ r1.1
+            | some σ' => exact ROK_val σ' o1 _ (setExisting_ok s1 σ' name _ r1.1 rfl hd) rfl
+    all_goals exact ⟨(by first | rfl | trivial), r1⟩
+  case list id u items =>
+    simp only [wfE] at hw
+    simp only [exE] at hx
+    have hl' := lv_list id u items 2 hl
+    obtain ⟨q1, r1⟩ := evalRtl_agree h items σ out hσ (goodL_all hl' hw hx)
+    simp only [evalWith]
+    rw [q1]
+    generalize evalRtl (evalWith (apFull p) p n) items σ out = ra at r1 ⊢
+    obtain ⟨s1, o1, res⟩ := ra
+    cases res with
+    | ok vs => exact ⟨(by first | rfl | trivial), ROK_val s1 o1 _ r1.1 (by simp only [vok]; exact r1.2.1 vs rfl)⟩
+    | error o => exact ⟨(by first | rfl | trivial), ROK_of s1 o1 o r1.1
+        (fun v hv => by subst hv; exact absurd rfl (r1.2.2.2 v)) (fun v hv => by subst hv; exact r1.2.2.1 v rfl)⟩
+  case tuple id u items =>
+    simp only [wfE] at hw
+    simp only [exE] at hx
+    simp only [lvE] at hl
+    obtain ⟨q1, r1⟩ := evalRtl_agree h items σ out hσ (goodL_all hl hw hx)
+    simp only [evalWith]
+    rw [q1]
+    generalize evalRtl (evalWith (apFull p) p n) items σ out = ra at r1 ⊢
+    obtain ⟨s1, o1, res⟩ := ra
+    cases res with
+    | ok vs => exact ⟨(by first | rfl | trivial), ROK_val s1 o1 _ r1.1 (by simp only [vok]; exact r1.2.1 vs rfl)⟩
+    | error o => exact ⟨(by first | rfl | trivial), ROK_of s1 o1 o r1.1
+        (fun v hv => by subst hv; exact absurd rfl (r1.2.2.2 v)) (fun v hv => by subst hv; exact r1.2.2.1 v rfl)⟩
+  case call id u recv args =>
+    simp only [wfE, Bool.and_eq_true] at hw
+    simp only [exE, Bool.and_eq_true] at hx
+    simp only [lvE] at hl
+    obtain ⟨q1, r1⟩ := h false false recv σ out hσ (by omega) hw.1.2 hx.1
+    simp only [evalWith]
+    rw [q1]
+    generalize evalWith (apFull p) p n σ out recv = rr at r1 ⊢
+    obtain ⟨s1, o1, oc1⟩ := rr
+    cases oc1
+    case val fv =>
+      simp only []
+      obtain ⟨q2, r2⟩ := evalRtl_agree h args s1 o1 r1.1 (goodL_all (by omega) hw.2 hx.2)
+      rw [q2]
+      generalize evalRtl (evalWith (apFull p) p n) args s1 o1 = ra at r2 ⊢
+      obtain ⟨s2, o2, res⟩ := ra
+      cases res with
+      | ok vs =>
+        simp only []
+        exact apply_agree h p hfuns s2 o2 fv vs r2.1 (r1.2.1 fv rfl) (r2.2.1 vs rfl)
+      | error o => exact ⟨(by first | rfl | trivial), ROK_of s2 o2 o r2.1
+          (fun v hv => by subst hv; exact absurd rfl (r2.2.2.2 v)) (fun v hv => by subst hv; exact r2.2.2.1 v rfl)⟩
+    all_goals exact ⟨(by first | rfl | trivial), r1⟩
+  case ret id u x =>
+    cases x with
+    | none =>
+      simp only [evalWith]
+      exact ⟨trivial, ROK_of σ out _ hσ (fun v hv => by cases hv) (fun v hv => by cases hv; rfl)⟩
+    | some x =>
+      simp only [wfE, Bool.and_eq_true] at hw
+      simp only [exE] at hx
+      simp only [lvE] at hl
+      obtain ⟨q1, r1⟩ := h false false x σ out hσ (by omega) hw.2 hx
+      simp only [evalWith]
+      rw [q1]
+      generalize evalWith (apFull p) p n σ out x = r0 at r1 ⊢
+      obtain ⟨s1, o1, oc1⟩ := r0
+      cases oc1
+      case val v =>
+        exact ⟨(by first | rfl | trivial), ROK_of s1 o1 _ r1.1 (fun w hw => by cases hw)
+          (fun w hw => by cases hw; exact r1.2.1 v rfl)⟩
+      all_goals exact ⟨(by first | rfl | trivial), r1⟩
+  case ifE id u c t els =>
+    have hcw : wfE c = true ∧ wfB (u && els.isSome) t = true ∧
+        (∀ eb, els = some eb → wfB (u && els.isSome) eb = true) := by
+      cases els <;> simp only [wfE, Bool.and_eq_true] at hw
+      · exact ⟨hw.1.2, by simpa using hw.2, by intro eb h; cases h⟩
+      · exact ⟨hw.1.1.2, by simpa using hw.1.2, by intro eb h; cases h; simpa using hw.2⟩
+    have hcx : exE false false c = true ∧ exB bk ck t = true ∧ (∀ eb, els = some eb → exB bk ck eb = true) := by
+      cases els <;> simp only [exE, Bool.and_eq_true] at hx
+      · exact ⟨hx.1, hx.2, by intro eb h; cases h⟩
+      · exact ⟨hx.1.1, hx.1.2, by intro eb h; cases h; exact hx.2⟩
+    have hcl : lvE c ≤ 2 ∧ lvB t ≤ 2 ∧ (∀ eb, els = some eb → lvB eb ≤ 2) := by
+      cases els <;> simp only [lvE] at hl
+      · exact ⟨by omega, by omega, by intro eb h; cases h⟩
+      · exact ⟨by omega, by omega, by intro eb h; cases h; omega⟩
+    obtain ⟨q1, r1⟩ := h false false c σ out hσ hcl.1 hcw.1 hcx.1
+    simp only [evalWith]
+    rw [q1]
+    generalize evalWith (apFull p) p n σ out c = rc at r1 ⊢
+    obtain ⟨s1, o1, oc1⟩ := rc
+    cases oc1
+    case val cv =>
+      simp only []
+      cases cv.asBool with
+      | none => exact ⟨(by first | rfl | trivial), ROK_err s1 o1 _ r1.1⟩
+      | some bv =>
+        cases bv
+        · cases els with
+          | none => exact ⟨(by first | rfl | trivial), ROK_val s1 o1 _ r1.1 rfl⟩
+          | some eb =>
+            simp only []
+            exact runBlock_agree h bk ck [] eb s1 o1 r1.1 rfl
+              (goodL_block (hcl.2.2 eb rfl) (hcw.2.2 eb rfl) (hcx.2.2 eb rfl))
+        · simp only []
+          obtain ⟨q2, r2⟩ := runBlock_agree h bk ck [] t s1 o1 r1.1 rfl (goodL_block hcl.2.1 hcw.2.1 hcx.2.1)
+          rw [q2]
+          generalize runBlock (evalWith (apFull p) p n) [] t s1 o1 = rb at r2 ⊢
+          obtain ⟨s2, o2, oc2⟩ := rb
+          cases oc2 <;> cases els <;> simp only []
+          all_goals first
+            | exact ⟨(by first | rfl | trivial), r2⟩
+            | exact ⟨(by first | rfl | trivial), ROK_val s2 o2 _ r2.1 rfl⟩
+    all_goals exact ⟨(by first | rfl | trivial), r1⟩
+  case matchE id u sc cases =>
+    simp only [wfE, Bool.and_eq_true] at hw
+    simp only [exE, Bool.and_eq_true] at hx
+    simp only [lvE] at hl
+    obtain ⟨q1, r1⟩ := h false false sc σ out hσ (by omega) hw.1.2 hx.1
+    simp only [evalWith]
+    rw [q1]
+    generalize evalWith (apFull p) p n σ out sc = rc at r1 ⊢
+    obtain ⟨s1, o1, oc1⟩ := rc
+    cases oc1
+    case val sv =>
+      cases sv <;> simp only [] <;> (try exact ⟨(by first | rfl | trivial), ROK_err s1 o1 _ r1.1⟩)
+      case enumV ty idx payload =>
+        have hpl : ∀ pl, payload = some pl → vok pl = true := by
+          intro pl hpl; subst hpl
+          have := r1.2.1 _ rfl
+          simpa [vok] using this
+        cases hsel : selectCase p s1 ty idx payload cases with
+        | fail er => exact ⟨(by first | rfl | trivial), ROK_err s1 o1 _ r1.1⟩
+        | take binds body =>
+          simp only []
+          obtain ⟨hb, vn, d, hmem⟩ := selectCase_ok p s1 ty idx payload hpl cases binds body hsel
+          exact runBlock_agree h bk ck binds body s1 o1 r1.1 hb
+            (goodL_block (lvCases_mem 2 cases vn d body (by omega) hmem) (wfCases_mem u cases vn d body hw.2 hmem)
+              (exCases_mem bk ck cases vn d body hx.2 hmem))
+    all_goals exact ⟨(by first | rfl | trivial), r1⟩
+  case whileE id u c body =>
+    have hl0 := hl
+    have hw0 := hw
+    have hx0 := hx
+    simp only [wfE, Bool.and_eq_true] at hw
+    simp only [exE, Bool.and_eq_true] at hx
+    simp only [lvE] at hl
+    obtain ⟨q1, r1⟩ := h false false c σ out hσ (by omega) hw.1.2 hx.1
+    simp only [evalWith]
+    rw [q1]
+    generalize evalWith (apFull p) p n σ out c = rc at r1 ⊢
+    obtain ⟨s1, o1, oc1⟩ := rc
+    cases oc1
+    case val cv =>
+      simp only []
+      cases cv.asBool with
+      | none => exact ⟨(by first | rfl | trivial), ROK_err s1 o1 _ r1.1⟩
+      | some bv =>
+        cases bv
+        · exact ⟨(by first | rfl | trivial), ROK_val s1 o1 _ r1.1 rfl⟩
+        · simp only []
+          obtain ⟨q2, r2⟩ := runBlock_agree h true true [] body s1 o1 r1.1 rfl (goodL_block (by omega) hw.2 hx.2)
+          rw [q2]
+          generalize runBlock (evalWith (apFull p) p n) [] body s1 o1 = rb at r2 ⊢
+          obtain ⟨s2, o2, oc2⟩ := rb
+          cases oc2 <;> simp only []
+          case val v => exact h bk ck (.whileE id u c body) s2 o2 r2.1 hl0 hw0 hx0
+          case cont => exact h bk ck (.whileE id u c body) s2 o2 r2.1 hl0 hw0 hx0
+          case brk => exact ⟨(by first | rfl | trivial), ROK_val s2 o2 _ r2.1 rfl⟩
+          all_goals exact ⟨(by first | rfl | trivial), r2⟩
+    all_goals exact ⟨(by first | rfl | trivial), r1⟩
+  case forE id u dest it body =>
+    simp only [wfE, Bool.and_eq_true] at hw
+    simp only [exE, Bool.and_eq_true] at hx
+    simp only [lvE] at hl
+    obtain ⟨q1, r1⟩ := h false false it σ out hσ (by omega) hw.1.2 hx.1
+    simp only [evalWith]
+    rw [q1]
+    generalize evalWith (apFull p) p n σ out it = ri at r1 ⊢
+    obtain ⟨s1, o1, oc1⟩ := ri
+    cases oc1
+    case val iv =>
+      cases iv <;> simp only [] <;> (try exact ⟨(by first | rfl | trivial), ROK_err s1 o1 _ r1.1⟩)
+      case list items =>
+        by_cases hlen : items.length < 9223372036854775808
+        · simp only [hlen, if_true]
+          exact forLoop_agree h dest body (goodL_block (by omega) hw.2 hx.2) items s1 o1 r1.1
+            (by have := r1.2.1 _ rfl; simpa [vok] using this)
+        · simp only [hlen, if_false]
+          exact ⟨(by first | rfl | trivial), ROK_unsup s1 o1 _ r1.1⟩
+    all_goals exact ⟨(by first | rfl | trivial), r1⟩
+
+theorem agree (p : Program) (hfuns : ∀ d ∈ p.funs, bodyOK d.body = true) :
+    ∀ n, Agree (evalWith (applyChecked p) p n) (evalWith (apFull p) p n)
+  | 0 => by
+    intro bk ck e σ out hσ hl hw hx
+    simp only [evalWith]
+    exact ⟨trivial, ROK_of σ out _ hσ (fun v hv => by cases hv) (fun v hv => by cases hv)⟩
+  | n + 1 => agree_succ p hfuns n (agree p hfuns n)
+
+/-- On programs of the fragment the reference interpreter with the dynamic closure check IS the
+reference interpreter: the check never fails (every closure value was made from a function literal
+of the program, whose body is inside the fragment). -/
+theorem runProgram_checked_eq (p : Program) (hfuns : ∀ d ∈ p.funs, bodyOK d.body = true)
+    (hl : lvB p.toplevel ≤ 2) (hw : wfAll p.toplevel = true) (hx : exB false false p.toplevel = true) (fuel : Nat) :
+    runProgramWith (evalWith (applyChecked p) p fuel) p = runProgram p fuel := by
+  have hg : GoodL false false p.toplevel :=
+    fun e he => ⟨lvB_mem _ 2 hl e he, wfAll_mem _ hw e he, exB_mem false false _ hx e he⟩
+  have := (evalSeq_agree (agree p hfuns fuel) false false p.toplevel vUnit [[]] "" rfl rfl hg).1
+  simp only [runProgram, runProgramWith, eval_eq, this]
+
+
 end BigStepLemmas
